@@ -1,6 +1,7 @@
 (* Executable model of xml5ever/src/serialize/mod.rs (XmlSerializer) driven by
    the traversal of markup5ever_rcdom::SerializableHandle (rcdom/lib.rs:615-675,
-   an explicit-stack preorder walk: start_elem, children, end_elem).
+   an explicit-stack preorder walk: start_elem, children, end_elem), as of the
+   repairs 1365bbe, 94524fa, 90b86cd, cc87c47, e751ebf in /repo.
 
    The serializer's output is modelled in two steps: [ser_doc] yields the
    sequence of structured items exactly as the Serializer methods are called
@@ -15,52 +16,96 @@ Local Open Scope N_scope.
    top of the stack = head of the list *)
 Definition sstack := list nsmap.
 
-(* NamespaceMap::insert(name): scope.insert(prefix, Some(ns)) *)
-Definition sm_insert (m : nsmap) (q : qname) : nsmap :=
-  nm_insert m (qprefix q) (Some (qns q)).
+(* the maps are BTreeMaps and start_elem writes the declarations in iteration
+   order: keys sorted, None before Some, prefixes by str::cmp (bytewise on
+   UTF-8, i.e. by code point) *)
+Fixpoint str_cmp (a b : str) : comparison :=
+  match a, b with
+  | [], [] => Eq
+  | [], _ => Lt
+  | _, [] => Gt
+  | x :: a', y :: b' => match x ?= y with Eq => str_cmp a' b' | c => c end
+  end.
 
-(* XmlSerializer::find_uri: the innermost map holding Some(uri) for the prefix decides *)
-Fixpoint s_find_uri (st : sstack) (q : qname) : bool :=
-  match st with
-  | [] => false
-  | m :: r =>
-    match nm_get m (qprefix q) with
-    | Some (Some el) => str_eqb el (qns q)
-    | _ => s_find_uri r q
+Definition okey_cmp (a b : option str) : comparison :=
+  match a, b with
+  | None, None => Eq
+  | None, Some _ => Lt
+  | Some _, None => Gt
+  | Some x, Some y => str_cmp x y
+  end.
+
+Fixpoint bt_insert (m : nsmap) (k : option str) (v : option str) : nsmap :=
+  match m with
+  | [] => [(k, v)]
+  | (k', v') :: r =>
+    match okey_cmp k k' with
+    | Lt => (k, v) :: m
+    | Eq => (k, v) :: r
+    | Gt => (k', v') :: bt_insert r k v
     end
   end.
 
-Definition find_or_insert_ns (st : sstack) (q : qname) : sstack :=
-  if (negb (is_none (qprefix q)) || negb (is_nil (qns q))) && negb (s_find_uri st q) then
-    match st with
-    | m :: r => sm_insert m q :: r          (* last_mut() *)
-    | [] => []
+(* NamespaceMap::insert(name): scope.insert(prefix, Some(ns)) *)
+Definition sm_insert (m : nsmap) (q : qname) : nsmap :=
+  bt_insert m (qprefix q) (Some (qns q)).
+
+(* the prefixes xml and xmlns are bound by definition and are never declared *)
+Definition fixed_name (q : qname) : bool :=
+  (ostr_eqb (qprefix q) (Some s_xml) && str_eqb (qns q) XML_URI) ||
+  (ostr_eqb (qprefix q) (Some s_xmlns) && str_eqb (qns q) XMLNS_URI).
+
+(* the innermost map holding Some(uri) for the prefix *)
+Fixpoint s_scope (st : sstack) (k : option str) : option str :=
+  match st with
+  | [] => None
+  | m :: r =>
+    match nm_get m k with
+    | Some (Some el) => Some el
+    | _ => s_scope r k
     end
-  else st.
+  end.
+
+(* XmlSerializer::find_uri: is the name's binding in scope?  With nothing
+   declared for the prefix only an unprefixed name in no namespace is. *)
+Definition s_find_uri (st : sstack) (q : qname) : bool :=
+  fixed_name q ||
+  match s_scope st (qprefix q) with
+  | Some el => str_eqb el (qns q)
+  | None => is_none (qprefix q) && is_nil (qns q)
+  end.
+
+Definition find_or_insert_ns (st : sstack) (q : qname) : sstack :=
+  if s_find_uri st q then st
+  else match st with
+       | m :: r => sm_insert m q :: r          (* last_mut() *)
+       | [] => []
+       end.
 
 Inductive item :=
 | IStart (name : qname) (decls : nsmap) (attrs : list attr)
 | IEnd (name : qname)
 | IText (s : str) | IComment (s : str) | IPi (target data : str) | IDoctype (name : str).
 
+(* only prefixed attribute names are looked up *)
 Fixpoint reg_attrs (st : sstack) (attrs : list attr) : sstack :=
   match attrs with
   | [] => st
-  | a :: r => reg_attrs (find_or_insert_ns st (aname a)) r
+  | a :: r =>
+    reg_attrs (if is_none (qprefix (aname a)) then st else find_or_insert_ns st (aname a)) r
   end.
 
-(* start_elem: push an empty map, register the element name, write the
-   declarations of the (new) top map, THEN register and write the attributes.
-   get_scope_iter walks a BTreeMap; at that point the map holds at most the
-   one entry just registered, so the iteration order is immaterial. *)
+(* start_elem: push an empty map, look up the element name and the prefixed
+   attribute names, THEN write the declarations of the top map and the
+   attributes *)
 Definition start_elem (st : sstack) (name : qname) (attrs : list attr) : item * sstack :=
-  let st1 := find_or_insert_ns (nm_empty :: st) name in
+  let st1 := reg_attrs (find_or_insert_ns (nm_empty :: st) name) attrs in
   let decls := match st1 with m :: _ => m | [] => [] end in
-  (IStart name decls attrs, reg_attrs st1 attrs).
+  (IStart name decls attrs, st1).
 
-(* end_elem: pop first, then qual_name (which may register in the parent's map) *)
+(* end_elem: pop; the name is written without a lookup *)
 Definition end_elem (st : sstack) (name : qname) : item * sstack :=
-  (IEnd name, find_or_insert_ns (tl st) name).
+  (IEnd name, tl st).
 
 Fixpoint ser_node (n : xnode) (st : sstack) : list item * sstack :=
   match n with
@@ -100,6 +145,7 @@ Definition escape_char (attr_mode : bool) (c : N) : str :=
   else if (c =? 34) && attr_mode then [38;113;117;111;116;59]      (* &quot; *)
   else if (c =? 60) && negb attr_mode then [38;108;116;59]         (* &lt; *)
   else if (c =? 62) && negb attr_mode then [38;103;116;59]         (* &gt; *)
+  else if c =? 13 then [38;35;49;51;59]                            (* &#13; *)
   else [c].
 
 Definition escape (attr_mode : bool) (s : str) : str := flat_map (escape_char attr_mode) s.
@@ -114,7 +160,7 @@ Definition qual (q : qname) : str :=
 Definition render_decl (d : option str * option str) : str :=
   [32;120;109;108;110;115]                                          (* " xmlns" *)
   ++ (match fst d with Some p => colon :: p | None => [] end)
-  ++ [61;34] ++ ostr (snd d) ++ [34].                               (* url written as is *)
+  ++ [61;34] ++ escape true (ostr (snd d)) ++ [34].                 (* escaped like a value *)
 
 Definition render_attr (a : attr) : str :=
   [32] ++ qual (aname a) ++ [61;34] ++ escape true (avalue a) ++ [34].
@@ -161,7 +207,8 @@ Definition item_rtoken (i : item) : rtoken :=
    the next '<' (tokenizer/mod.rs Data + get_preprocessed_char + the five
    predefined entities of the character reference tokenizer):
    CR and CR LF become LF; "&name;" with a predefined name becomes its
-   character; any other use of '&' and U+0000 are outside this model (None). *)
+   character, "&#13;" a CR; any other use of '&' and U+0000 are outside this
+   model (None). *)
 Definition entity (s : str) : option (N * str) :=
   match s with
   | 97 :: 109 :: 112 :: 59 :: r => Some (38, r)                 (* amp; *)
@@ -169,6 +216,7 @@ Definition entity (s : str) : option (N * str) :=
   | 103 :: 116 :: 59 :: r => Some (62, r)                       (* gt; *)
   | 113 :: 117 :: 111 :: 116 :: 59 :: r => Some (34, r)         (* quot; *)
   | 97 :: 112 :: 111 :: 115 :: 59 :: r => Some (39, r)          (* apos; *)
+  | 35 :: 49 :: 51 :: 59 :: r => Some (13, r)                   (* #13; *)
   | _ => None
   end.
 
@@ -194,9 +242,8 @@ Fixpoint lex_text (fuel : nat) (s : str) : option (str * str) :=
     end
   end.
 
-(* TagAttrValue(DoubleQuoted) up to the closing quote.  CR inside a value is
-   outside this model (today the fast path hands it through unchanged unless
-   the slow path is active; DESIGN 6.3 row 5). *)
+(* TagAttrValue(DoubleQuoted) up to the closing quote.  A literal CR inside a
+   value is outside this model (the serializer never writes one). *)
 Fixpoint lex_attr_value (fuel : nat) (s : str) : option (str * str) :=
   match fuel with
   | O => None
